@@ -11,9 +11,9 @@ go1.26 test -vet=off -count=1 ./... > /tmp/seed/$id-tests.txt 2>&1; trc=$?
 echo "tests rc=$trc fails=$(grep -c '^FAIL\|^--- FAIL' /tmp/seed/$id-tests.txt)"
 demo=$O/demo.sh
 bash $demo $W > /tmp/seed/$id-with.txt 2>&1; with=$?
-git stash -q
+git diff > /tmp/seed/$id-v.diff; git apply -R /tmp/seed/$id-v.diff
 bash $demo $W > /tmp/seed/$id-without.txt 2>&1; without=$?
-git stash pop -q
+git apply /tmp/seed/$id-v.diff
 echo "demo with-change rc=$with   without-change rc=$without"
 git status --short | head -5
 if [ $trc -eq 0 ] && [ $with -ne 0 ] && [ $without -eq 0 ]; then
